@@ -13,6 +13,7 @@ import (
 type ScopeProg struct {
 	Root *Scope            `json:"root"`
 	Neg  string            `json:"neg,omitempty"` // kind of forbidden declaration injected ("" = positive program)
+	Names []string         `json:"names,omitempty"` // the name set (default a,b,c,d)
 	Tags map[string]string `json:"tags"`          // tag -> descriptor of the statement that logs it
 }
 
@@ -41,6 +42,7 @@ type Stmt struct {
 var scopeNames = []string{"a", "b", "c", "d"}
 
 type scopeGen struct {
+	names []string
 	r    *simrt.Rand
 	n    int
 	tags map[string]string
@@ -75,11 +77,15 @@ func (si *scopeInfo) enclosingFuncBinds(name string) bool {
 
 // GenScope generates one scoping program.
 func GenScope(r *simrt.Rand, maxDepth int) *ScopeProg {
-	g := &scopeGen{r: r, tags: map[string]string{}}
+	g := &scopeGen{r: r, tags: map[string]string{}, names: scopeNames}
+	if r.Chance(1, 5) {
+		// more names: more cell / free variable slots per scope
+		g.names = []string{"a", "b", "c", "d", "e", "f_", "g_", "h_", "i_", "j_"}[:5+r.Intn(6)]
+	}
 	root := &Scope{Kind: "module", Name: "<module>"}
 	si := &scopeInfo{kind: "module", locals: map[string]bool{}, nonloc: map[string]bool{}}
 	g.fill(root, si, 0, maxDepth)
-	p := &ScopeProg{Root: root, Tags: g.tags}
+	p := &ScopeProg{Root: root, Tags: g.tags, Names: g.names}
 	if r.Chance(1, 6) {
 		g.injectNegative(p)
 	}
@@ -93,7 +99,7 @@ func (g *scopeGen) bindForm() string {
 	return []string{"for", "except", "import", "defname", "classname", "tuple", "star", "with"}[g.r.Intn(8)]
 }
 
-func (g *scopeGen) pick() string { return scopeNames[g.r.Intn(len(scopeNames))] }
+func (g *scopeGen) pick() string { return g.names[g.r.Intn(len(g.names))] }
 
 func (g *scopeGen) fill(sc *Scope, si *scopeInfo, depth, maxDepth int) {
 	r := g.r
@@ -102,7 +108,7 @@ func (g *scopeGen) fill(sc *Scope, si *scopeInfo, depth, maxDepth int) {
 	for _, p := range sc.Params {
 		si.locals[p.Name] = true
 	}
-	for _, n := range scopeNames {
+	for _, n := range g.names {
 		if si.locals[n] {
 			continue
 		}
@@ -115,7 +121,7 @@ func (g *scopeGen) fill(sc *Scope, si *scopeInfo, depth, maxDepth int) {
 			si.nonloc[n] = true
 		}
 	}
-	for _, n := range scopeNames {
+	for _, n := range g.names {
 		if globals[n] {
 			sc.Stmts = append(sc.Stmts, &Stmt{K: "global", N: n})
 		}
@@ -144,7 +150,7 @@ func (g *scopeGen) fill(sc *Scope, si *scopeInfo, depth, maxDepth int) {
 	for _, p := range sc.Params {
 		isParam[p.Name] = true
 	}
-	for _, n := range scopeNames {
+	for _, n := range g.names {
 		if (si.locals[n] && !isParam[n]) || ((globals[n] || si.nonloc[n]) && r.Chance(2, 3)) {
 			body = append(body, &Stmt{K: "bind", N: n, Form: g.bindForm(), Tag: g.tag("bind:" + where + ":" + role(n))})
 		}
@@ -272,16 +278,27 @@ func (g *scopeGen) injectNegative(p *ScopeProg) {
 }
 
 // Render produces the Python source.
+func (p *ScopeProg) nameSet() []string {
+	if len(p.Names) > 0 {
+		return p.Names
+	}
+	return scopeNames
+}
+
 func (p *ScopeProg) Render() string {
 	var b strings.Builder
+	renderNames = p.nameSet()
 	b.WriteString("from simlog import log, exc_name\nK = []\nclass _CM:\n    def __init__(self, v):\n        self.v = v\n    def __enter__(self):\n        return self.v\n    def __exit__(self, *a):\n        return False\n")
 	renderStmts(&b, p.Root, p.Root.Stmts, 0)
 	b.WriteString("for _k in list(K):\n    try:\n        _k(\"kcall\")\n    except Exception as _e:\n        log(\"kcall\", exc_name(_e))\n")
-	for _, n := range scopeNames {
+	for _, n := range p.nameSet() {
 		fmt.Fprintf(&b, "try:\n    log(\"final\", \"%s\", %s)\nexcept NameError as _e:\n    log(\"final\", \"%s\", exc_name(_e))\n", n, n, n)
 	}
 	return b.String()
 }
+
+// renderNames is set by Render for the class-attribute probes (single-threaded use).
+var renderNames = scopeNames
 
 func renderStmts(b *strings.Builder, sc *Scope, stmts []*Stmt, ind int) {
 	pad := strings.Repeat("    ", ind)
@@ -393,7 +410,7 @@ func renderStmts(b *strings.Builder, sc *Scope, stmts []*Stmt, ind int) {
 				}
 			}
 			// class attributes are visible as attributes, not as names
-			for _, n := range scopeNames {
+			for _, n := range renderNames {
 				w("try:\n    log(\"%s\", \"attr\", \"%s\", %s.%s)\nexcept Exception as _e:\n    log(\"%s\", \"attr\", \"%s\", exc_name(_e))", st.Tag, n, sub.Name, n, st.Tag, n)
 			}
 		}
@@ -430,7 +447,7 @@ func ShrinkScope(p *ScopeProg) []*ScopeProg {
 }
 
 func cloneScopeProg(p *ScopeProg) *ScopeProg {
-	c := &ScopeProg{Neg: p.Neg, Tags: p.Tags}
+	c := &ScopeProg{Neg: p.Neg, Tags: p.Tags, Names: p.Names}
 	c.Root = cloneScope(p.Root)
 	return c
 }
